@@ -3,6 +3,7 @@
    [Wire.HeaderEdit.build] followed by the specification encoder; the
    DBusTypeWriter is tied to it byte-for-byte by the correspondence run. *)
 From DV Require Import Lib.Base Spec.Codec Wire.HeaderEdit Proofs.EditProofs Proofs.CodecWf Proofs.CodecRoundtrip Proofs.CodecMessage Proofs.SigRoundtrip Proofs.Utf8Proofs Proofs.BodySound Proofs.WireClean.
+From DV Require Import Wire.Byteswap Proofs.ByteswapProofs.
 Local Open Scope N_scope.
 
 (* THE ROUND TRIP, message level: the specification decoder applied to the
@@ -125,3 +126,221 @@ Example ex_roundtrip : match spec_decode_message (spec_encode_message ex_built) 
                        | Some (m, _) => s_body m = s_body ex_built /\ map sf_code (s_fields m) = [1; 2; 3; 8]
                        | None => False end.
 Proof. vm_compute. split; reflexivity. Qed.
+
+
+(* THE BYTE-LEVEL CONVERTER.  Wire/Byteswap.v models byteswap_body_helper /
+   _dbus_marshal_byteswap (dbus-marshal-byteswap.c), _dbus_header_byteswap and
+   _dbus_message_byteswap: a walk over the marshalled bytes driven by the signature types, swapping
+   words in place.  The theorems below tie it to the specification codec: on the canonical encoding
+   of ANY well-formed value / body / message in one byte order it yields exactly the canonical
+   encoding in the other order (so C02_byteswap_values / C02_byteswap_roundtrip above, which speak
+   about [swap_order] on abstract messages, are statements about what the byte-shuffling code
+   produces).  The C code is tied to the model by the correspondence run (tools/props/c02_byteswap.py). *)
+
+(* the encoder's lengths (hence all alignment padding) do not depend on the byte order ... *)
+Theorem C02_byteswap_length_invariant : forall v le le' pos, nlen (enc le v pos) = nlen (enc le' v pos).
+Proof. exact enc_len_order. Qed.
+Print Assumptions C02_byteswap_length_invariant.
+
+(* ... so neither does well-formedness of a message *)
+Theorem C02_byteswap_wf_invariant : forall m, wf_msg (swap_order m) = wf_msg m.
+Proof. exact wf_msg_swap. Qed.
+Print Assumptions C02_byteswap_wf_invariant.
+
+(* one value: at every offset, nesting depth, with anything behind it, the converter's walk (one
+   iteration of byteswap_body_helper's loop) returns the encoding in the other order, stops exactly at
+   the end of the value and leaves the rest alone.  [tygood]: the value's type is a signature type. *)
+Theorem C02_byteswap_bytes_value : forall le v d depth pos rest,
+  wfb le depth pos v = true -> tygood (ty_of_val v) = true -> (height v < d)%nat ->
+  bsv le d (ty_of_val v) pos (enc le v pos ++ rest) = BOk (enc (negb le) v pos, pos + nlen (enc le v pos), rest).
+Proof. exact byteswap_value_correct. Qed.
+Print Assumptions C02_byteswap_bytes_value.
+
+(* a body (sequence of top-level values) with the converter's own fuel: _dbus_marshal_byteswap at
+   value_pos = pos (the C code converts a body at offset 0) *)
+Theorem C02_byteswap_bytes_body : forall le vs pos rest,
+  wfsb le vs 0 pos = true -> forallb tygood (map ty_of_val vs) = true ->
+  byteswap_at le (map ty_of_val vs) pos (encs le vs pos ++ rest) = Some (encs (negb le) vs pos ++ rest).
+Proof. exact byteswap_at_correct. Qed.
+Print Assumptions C02_byteswap_bytes_body.
+
+(* the type premise is needed: [wfb] does not constrain the element type of an empty array, and the C
+   alignment table gives the pseudo type code 'r' alignment 8 *)
+Theorem C02_byteswap_bytes_body_needs_types :
+  exists vs, wfsb true vs 0 0 = true /\ byteswap_body true (map ty_of_val vs) (encs true vs 0) <> Some (encs false vs 0).
+Proof. exact byteswap_body_needs_types. Qed.
+Print Assumptions C02_byteswap_bytes_body_needs_types.
+
+(* a whole message: header (incl. the lookup of the body signature in the not yet converted header,
+   the fixed words, the field array) and body; the byte-order mark is flipped *)
+Theorem C02_byteswap_bytes_message : forall m, wf_msg m = true ->
+  byteswap_message (spec_encode_message m) = Some (spec_encode_message (swap_order m)).
+Proof. exact byteswap_message_correct. Qed.
+Print Assumptions C02_byteswap_bytes_message.
+
+Theorem C02_byteswap_bytes_involutive : forall m, wf_msg m = true ->
+  match byteswap_message (spec_encode_message m) with
+  | Some b => byteswap_message b = Some (spec_encode_message m)
+  | None => False
+  end.
+Proof. exact byteswap_message_involutive. Qed.
+Print Assumptions C02_byteswap_bytes_involutive.
+
+Theorem C02_byteswap_bytes_length : forall m b, wf_msg m = true ->
+  byteswap_message (spec_encode_message m) = Some b -> nlen b = nlen (spec_encode_message m).
+Proof. exact byteswap_message_length. Qed.
+Print Assumptions C02_byteswap_bytes_length.
+
+(* the converted bytes decode (specification decoder) to the same message in the other order: no
+   header field and no body value changes *)
+Theorem C02_byteswap_bytes_decodes : forall m b, wf_msg m = true ->
+  byteswap_message (spec_encode_message m) = Some b ->
+  spec_decode_message b = Some (swap_order m, nlen b) /\
+  s_fields (swap_order m) = s_fields m /\ s_body (swap_order m) = s_body m /\ s_sig (swap_order m) = s_sig m /\
+  s_type (swap_order m) = s_type m /\ s_flags (swap_order m) = s_flags m /\ s_serial (swap_order m) = s_serial m /\
+  s_le (swap_order m) = negb (s_le m).
+Proof. exact byteswap_message_decodes. Qed.
+Print Assumptions C02_byteswap_bytes_decodes.
+
+(* starting from bytes instead of an abstract message: whatever the specification decoder accepts as one
+   message, the converter maps to the encoding of that message in the other order *)
+Theorem C02_byteswap_bytes_decoded : forall d m, all_bytes d = true -> spec_decode_message d = Some (m, nlen d) ->
+  byteswap_message d = Some (spec_encode_message (swap_order m)).
+Proof. exact byteswap_decoded. Qed.
+Print Assumptions C02_byteswap_bytes_decoded.
+
+(* non-vacuity (Proofs/ByteswapProofs.v, by vm_compute): ex_swap1 = empty a{sv} followed by an int32,
+   ex_swap2 = variant holding an array of structs, string, int16, array of uint16, uint64; both directions *)
+Example C02_byteswap_ex1 : wf_msg ex_swap1 = true /\
+  byteswap_message (spec_encode_message ex_swap1) = Some (spec_encode_message (swap_order ex_swap1)) /\
+  byteswap_message (spec_encode_message (swap_order ex_swap1)) = Some (spec_encode_message ex_swap1).
+Proof. exact (conj ex_swap1_wf (conj ex_swap1_le_to_be ex_swap1_be_to_le)). Qed.
+Example C02_byteswap_ex2 : wf_msg ex_swap2 = true /\
+  byteswap_message (spec_encode_message ex_swap2) = Some (spec_encode_message (swap_order ex_swap2)) /\
+  byteswap_message (spec_encode_message (swap_order ex_swap2)) = Some (spec_encode_message ex_swap2).
+Proof. exact (conj ex_swap2_wf (conj ex_swap2_be_to_le ex_swap2_le_to_be)). Qed.
+
+(* ==== C02, writer part: append this to Props/C02.v ====================================================
+   Extra Require (put it with the other Require line at the top of Props/C02.v, or leave it here: Coq accepts
+   a Require in the middle of a file): *)
+From DV Require Import Wire.Writer Proofs.WriterProofs.
+
+(* THE WRITER IS INSIDE THE MODEL.  [Wire.Writer] is the DBusTypeWriter state machine behind
+   dbus_message_iter_append_basic / open_container / close_container (dbus-marshal-recursive.c,
+   _dbus_marshal_write_basic, and the signature glue of dbus-message.c), one [writer_step] per API call.
+   [ops_of_vals vs] is the call sequence a well-typed program makes for the values [vs].
+   For ALL well-formed bodies (unbounded values, any nesting), both byte orders: the writer does not fail, the bytes
+   it leaves in the body are the specification encoding [encs le vs 0] and the SIGNATURE header field is the types'
+   signature.  Premises: [wfsb] (the one of C02_body_roundtrip); the body types are types ([tygood]: needed only for
+   the element types of EMPTY arrays, which [wfsb] does not constrain, cf. C02_writer_premises_needed); the body
+   signature fits the 255-byte SIGNATURE field (beyond it the real code asserts, cf. C02_writer_premises_needed). *)
+Theorem C02_writer_correct : forall le vs,
+  wfsb le vs 0 0 = true -> forallb tygood (map ty_of_val vs) = true ->
+  nlen (flat_map print_ty (map ty_of_val vs)) <= 255 ->
+  run_writer le (ops_of_vals vs) = Some (encs le vs 0, flat_map print_ty (map ty_of_val vs)).
+Proof. exact writer_correct. Qed.
+Print Assumptions C02_writer_correct.
+
+(* for the messages of C02_roundtrip the extra premises are part of [wf_msg]: the writer, run on the body of any
+   well-formed abstract message, produces exactly the body bytes and the signature that [spec_encode_message] uses *)
+Theorem C02_writer_correct_message : forall m, wf_msg m = true ->
+  run_writer (s_le m) (ops_of_vals (s_body m)) = Some (encs (s_le m) (s_body m) 0, s_sig m).
+Proof. exact writer_correct_msg. Qed.
+Print Assumptions C02_writer_correct_message.
+
+(* appending to a message that already has a body (dbus_message_iter_init_append on a non-empty message):
+   the new values are encoded at the position where the old body ends, the signature is extended at its end *)
+Theorem C02_writer_appends : forall le body0 sg0 vs,
+  wfsb le vs 0 (nlen body0) = true -> forallb tygood (map ty_of_val vs) = true ->
+  nlen (sg0 ++ flat_map print_ty (map ty_of_val vs)) <= 255 ->
+  run_writer_from le body0 sg0 (ops_of_vals vs) =
+  Some (body0 ++ encs le vs (nlen body0), sg0 ++ flat_map print_ty (map ty_of_val vs)).
+Proof. exact writer_correct_from. Qed.
+Print Assumptions C02_writer_appends.
+
+(* never fails, and every container is closed at the end *)
+Theorem C02_writer_never_fails : forall le vs,
+  wfsb le vs 0 0 = true -> forallb tygood (map ty_of_val vs) = true ->
+  nlen (flat_map print_ty (map ty_of_val vs)) <= 255 ->
+  exists st, run_ops (ops_of_vals vs) (winit le [] []) = Some st /\ length (ws_iters st) = 1%nat.
+Proof. exact writer_never_fails. Qed.
+Print Assumptions C02_writer_never_fails.
+
+(* THE INVARIANT behind it ([value_written], Proofs/WriterProofs.v): one value written through an iterator [w] that sits
+   on top of ANY stack [rest] of open containers, at ANY position (after any body written so far), with any expected
+   signature tail: if [w] is the idle top-level iterator or a ready one ([head_ok]: it either extends the signature
+   string at its end, or verifies against an expected signature that starts with the value's type), the value's call
+   sequence succeeds, appends exactly [enc le v (position)] and advances the type side by exactly the value's signature
+   ([post_state]); the iterators below are untouched. *)
+Theorem C02_writer_value_anywhere : forall le v sf body sigstr w rest depth tail,
+  head_ok sf (mkS body sigstr) w (print_ty (ty_of_val v)) tail ->
+  w_vpos w = nlen body -> wfb le depth (nlen body) v = true -> tygood (ty_of_val v) = true ->
+  run_ops (ops_of_val v) (mkWS le (mkS body sigstr) sf (w :: rest)) =
+  Some (post_state le sf body sigstr w rest (print_ty (ty_of_val v)) (tpos_after w v) (body ++ enc le v (nlen body))).
+Proof. exact value_written_all. Qed.
+Print Assumptions C02_writer_value_anywhere.
+
+(* array length back-patching, inside any stack of open containers: the word at the 4-aligned position is the byte
+   count of the encoded elements (what [enc] writes), the padding to the element alignment follows it whether or not
+   there are elements, and the iterators below are unchanged *)
+Theorem C02_writer_array_length_word : forall le et vs sf body sigstr w rest depth tail,
+  head_ok sf (mkS body sigstr) w (print_ty (TArray et)) tail -> w_vpos w = nlen body ->
+  wfb le depth (nlen body) (VArr et vs) = true -> tygood et = true ->
+  let p1 := pad_amount (nlen body) 4 in
+  let start := arr_start (nlen body) et in
+  exists st', run_ops (ops_of_val (VArr et vs)) (mkWS le (mkS body sigstr) sf (w :: rest)) = Some st' /\
+    s_bodystr (ws_strs st') =
+      body ++ zeros p1 ++ bytes_of le 4 (nlen (encs le vs start)) ++ zeros (pad_amount (nlen body + p1 + 4) (spec_align et)) ++ encs le vs start /\
+    exists w', ws_iters st' = w' :: rest.
+Proof. exact writer_array_length_word. Qed.
+Print Assumptions C02_writer_array_length_word.
+
+(* the unrecurse step itself: whatever 4 bytes the placeholder holds, closing the array overwrites exactly them with
+   the distance from start_pos to the end of the body *)
+Theorem C02_writer_unrecurse_backpatch : forall le body sigstr w ts tp lp0 refs' et payload old,
+  nlen old = 4 ->
+  let p1 := pad_amount (nlen body) 4 in
+  let p2 := pad_amount (nlen body + p1 + 4) (spec_align et) in
+  let body3 := body ++ zeros p1 ++ old ++ zeros p2 ++ payload in
+  type_writer_unrecurse le (mkS body3 sigstr) w
+    (mkW 97 ts tp true (nlen body3) (nlen body + p1) (arr_start (nlen body) et) lp0 refs') =
+  Some (mkS (body ++ zeros p1 ++ bytes_of le 4 (nlen payload) ++ zeros p2 ++ payload) sigstr,
+        post_w w (w_tpos w) (nlen body3)).
+Proof. exact close_array. Qed.
+Print Assumptions C02_writer_unrecurse_backpatch.
+
+(* empty arrays, at any offset (after any existing body): the padding is still written, the length is 0 *)
+Theorem C02_writer_empty_array : forall le et body0 sg0, tygood et = true -> nlen (sg0 ++ 97 :: print_ty et) <= 255 ->
+  run_writer_from le body0 sg0 (ops_of_val (VArr et [])) =
+  Some (body0 ++ zeros (pad_amount (nlen body0) 4) ++ bytes_of le 4 0 ++
+        zeros (pad_amount (nlen body0 + pad_amount (nlen body0) 4 + 4) (spec_align et)), sg0 ++ 97 :: print_ty et).
+Proof. exact writer_empty_array. Qed.
+Print Assumptions C02_writer_empty_array.
+
+(* the two extra premises of C02_writer_correct cannot be dropped (both are assertion failures in the C code:
+   255 one-byte arguments are fine, the 256th makes the SIGNATURE field too long; an element "type" that is no type) *)
+Theorem C02_writer_premises_needed :
+  (wfsb true (repeat (VNum 121 0) 256) 0 0 = true /\ forallb tygood (map ty_of_val (repeat (VNum 121 0) 256)) = true /\
+   run_writer true (ops_of_vals (repeat (VNum 121 0) 255)) = Some (repeat 0 255, repeat 121 255) /\
+   run_writer true (ops_of_vals (repeat (VNum 121 0) 256)) = None) /\
+  (wfsb true [VArr (TBasic 40) []] 0 0 = true /\ run_writer true (ops_of_vals [VArr (TBasic 40) []]) = None).
+Proof. exact (conj writer_signature_limit writer_types_premise). Qed.
+Print Assumptions C02_writer_premises_needed.
+
+(* non-vacuity: the premises hold and the conclusion is checked by computation on nested containers (struct of
+   array of dict entries of variants of arrays), empty arrays of 8-aligned elements at odd offsets, arrays of arrays
+   with empty inner arrays, variants of arrays / of variants / of structs, both byte orders; API misuse is None *)
+Example C02_writer_ex_nested : wchk true [wex_nested; wex_nested] = true /\ wchk false [VNum 121 1; wex_nested] = true.
+Proof. vm_compute. split; reflexivity. Qed.
+Example C02_writer_ex_empty8 : wchk true wex_empty8 = true /\ wchk false wex_empty8 = true.
+Proof. vm_compute. split; reflexivity. Qed.
+Example C02_writer_ex_variants : wchk true wex_var = true /\ wchk false wex_var = true.
+Proof. vm_compute. split; reflexivity. Qed.
+Example C02_writer_ex_message : run_writer (s_le ex_built) (ops_of_vals (s_body ex_built)) = Some (encs true (s_body ex_built) 0, s_sig ex_built).
+Proof. apply C02_writer_correct_message. exact ex_built_wf. Qed.
+Example C02_writer_ex_misuse :
+  run_writer true [WClose] = None /\
+  run_writer true [WOpen KArray [105]; WBasic (VNum 120 5); WClose] = None /\
+  run_writer true [WOpen KArray [97; 105]; WOpen KArray [120]; WClose; WClose] = None /\
+  run_writer true [WOpen KVariant [105]; WBasic (VNum 105 1); WBasic (VNum 105 2); WClose] = None.
+Proof. vm_compute. repeat split; reflexivity. Qed.
